@@ -22,6 +22,13 @@ Statements that prepare state for the next one / prefix-style statements (added 
   * vlib/props/c16_prefix.py: generated and hand-written prefix texts for six families in plain / tab-first / blank-first / mixed spellings and
     with blank, comment-only and label-only lines between all statements; Z380 DDIR/JP programs against Model/PrefixCarry + Spec/PrefixCarry.
 
+Long lines and definitions that carry more than a value (added after seeded changes C16-g/h were missed): vlib/props/c16_long.py
+  * generated data lines with many operands whose argument field / comment / single argument / whole line sweeps in steps of one over the sizes of
+    SplitLine's component buffers (STRINGSIZE = 1024 and the growth steps 1152, 1280, ...) by changing only blanks, tabs and the comment; every line
+    against the bytes written in it and against Model/Split.lean splitBufRun (driver mode c16sweep; Props/C16_Long.lean: no buffer copy loses a character);
+  * texts on targets where the definition of a symbol carries a data size, a register, a bit position or a segment (8086 DB/DW/STRUCT, REG, BIT, SFR,
+    PORT, 8051 segments), plain vs to-macro / to-include / REPT 1 / IRP with one value / nested macros.
+
 The rewrite generator is deliberately conservative (a false alarm is worse than a miss); every exclusion is listed in
 EXCLUSIONS below and counted in the evidence.
 """
@@ -33,6 +40,7 @@ import shutil
 from .. import common
 from ..common import log
 from . import c16_prefix
+from . import c16_long
 
 EXCLUSIONS = [
     "lines ending in a backslash (continuation) and the line after them: nothing is inserted or changed (only the line end may become CR-LF)",
@@ -57,6 +65,11 @@ EXCLUSIONS = [
     "every rewritten line must have model fields equal to the original's (Lean c16pair); otherwise the rewrite of that line is dropped (counted as model_rejected)",
     "to-macro: only sources without MACRO/ENDM/IRP*/REPT/WHILE/EXITM/SHIFT/END/'#' lines, continuation lines, ATTRIBUTE/ALLARGS/ARGCOUNT/__LABEL__ words "
     "(texts that define/call macros and repetitions referring to their own labels are covered by the generated wrap texts instead)",
+    "long-line sweeps (c16_long.py): the swept lines carry no label (all spellings of one line stand in one source); operands are decimal numbers, '(d)' and 'd+d' "
+    "only (no quotes: per-target QualifyQuote rules); a sweep wrapped into MACRO / IRP whose lines contain TABs and reach the line buffer in TAB-expanded form is "
+    "attributed to the known finding macro-body-line-with-tabs-expands-beyond-line-buffer (the quick tier wraps TAB-free sweeps into MACRO / IRP for that reason)",
+    "golden sources, long argument fields: only the gap mnemonic -> parameters is widened (to argument fields of 1023..1281 characters), on at most nine statements per "
+    "source, not on continuation lines, macro/repetition bodies, '#' lines, lines whose head contains quotes or brackets",
 ]
 
 SPACES = " \t\n\x0b\x0c\r"
@@ -540,6 +553,39 @@ def build_image(bdir, d, name, flags, incdirs, timeout=120):
     if rc2 != 0 or not os.path.exists(b):
         return None, "p2bin rc=%s: %s" % (rc2, (so2 + se2).decode("latin-1")[-300:])
     return open(b, "rb").read(), ""
+
+
+LONG_SEQ = [1024, 1025, 1023, 1152, 1153, 1151, 1280, 1281, 1279]      # each buffer size first: it is met at the capacity the buffer has at that moment
+
+
+def long_gap_sites(rng, lines, frozen):
+    """[(line index, line with the gap mnemonic -> parameters widened)]: statements with parameters, in source order, whose argument field (everything behind the
+    one separator after the mnemonic, up to the comment) becomes LONG_SEQ[0], LONG_SEQ[1], ... characters long"""
+    cands = []
+    for i, l in enumerate(lines):
+        if frozen[i] or l.lstrip(SPACES).startswith("#") or len(l) >= 200 or "\\" in l:
+            continue
+        opu, a = op_upper(l)
+        if a["op"] is None or opu in BODY_OPEN or opu in ("ENDM", "END", "") or not OP_RE.match(l[a["op"][0]:a["op"][1]]):
+            continue
+        body = l[:a["body_len"]]
+        e = a["op"][1]
+        if not (e < len(body) and body[e] in " \t" and body[e + 1:].strip(SPACES)):
+            continue
+        if any(c in body[:a["argstart"]] for c in "\"'()[]"):
+            continue
+        cands.append(i)
+    if not cands:
+        return []
+    pick = sorted(rng.sample(cands, min(len(cands), len(LONG_SEQ))))
+    out = []
+    for tgt, i in zip(LONG_SEQ, pick):
+        l = lines[i]
+        a = analyze(l)
+        e = a["op"][1]
+        k = tgt - (a["body_len"] - e - 1)
+        out.append((i, l[:e + 1] + " " * k + l[e + 1:]))
+    return out
 
 
 MACRO_BLOCK = re.compile(r"\b(MACRO|ENDM|IRP|IRPC|IRPN|REPT|WHILE|EXITM|SHIFT|END|ATTRIBUTE|ALLARGS|ARGCOUNT|__LABEL__|MOMLINE|SECTION|ENDSECTION|STRUCT|ENDSTRUCT|UNION|ENDUNION|INCLUDE|BINCLUDE|LOCAL)\b", re.I)
@@ -1082,17 +1128,50 @@ def run(args):
                     l = l + " " * (tgtlen - len(l))
                     npad += 1
                 out.append(l + "\r\n")
+            # long lines: up to nine statements of the source get so many blanks between mnemonic and parameters that their argument field is
+            # 1023, 1024, 1025, 1151 ... 1281 characters long, in this order (the sizes SplitLine's ArgPart buffer passes through on its way up)
+            longs = long_gap_sites(rng, lines, frozen)
+            if longs and drv_ok:
+                ans = common.driver("c16pair", ["%s %s %s" % (PSPEC, hx(lines[i]), hx(nl)) for i, nl in longs])
+                rej = [k for k, a in enumerate(ans) if "eq=1" not in a]
+                dist["model_rejected"] += len(rej)
+                longs = [x for k, x in enumerate(longs) if k not in rej]
+            out_long = list(out)
+            for i, nl in longs:
+                out_long[i] = nl + "\r\n"
+            kinds_total["gap-after-op-to-argument-buffer-size"] = kinds_total.get("gap-after-op-to-argument-buffer-size", 0) + len(longs)
             d = os.path.join(wd, name)
             os.makedirs(d, exist_ok=True)
-            open(os.path.join(d, name + ".asm"), "wb").write("".join(out).encode("latin-1"))
+            open(os.path.join(d, name + ".asm"), "wb").write("".join(out_long).encode("latin-1"))
             img, diag = build_image(bdir, d, name, flags, [os.path.dirname(asm)])
             evaluations += 1
             dist["boundary_pad_runs"] += 1
             kinds_total["pad-to-buffer-size+crlf"] = kinds_total.get("pad-to-buffer-size+crlf", 0) + npad
             if img != ori:
-                spec_fail.append(dict(tag="%s/pad" % name, sig="crlf-at-line-buffer-boundary", test=name, flags=flags,
-                                      why="trailing blanks up to 253..257 characters + CR-LF change the image: " + diag[:300],
-                                      files={name + ".asm": "".join(out)}, incdir=os.path.dirname(asm)))
+                img_s, diag_s = img, diag
+                if longs:
+                    open(os.path.join(d, name + ".asm"), "wb").write("".join(out).encode("latin-1"))
+                    img_s, diag_s = build_image(bdir, d, name, flags, [os.path.dirname(asm)])
+                if img_s != ori:
+                    spec_fail.append(dict(tag="%s/pad" % name, sig="crlf-at-line-buffer-boundary", test=name, flags=flags,
+                                          why="trailing blanks up to 253..257 characters + CR-LF change the image: " + diag_s[:300],
+                                          files={name + ".asm": "".join(out)}, incdir=os.path.dirname(asm)))
+                else:
+                    # which long line? (each alone; the argument buffer has its initial size then, so only some reproduce alone)
+                    culprit = None
+                    for i, nl in longs:
+                        t = [x + "\r\n" for x in lines]
+                        t[i] = nl + "\r\n"
+                        open(os.path.join(d, name + ".asm"), "wb").write("".join(t).encode("latin-1"))
+                        img1, diag1 = build_image(bdir, d, name, flags, [os.path.dirname(asm)])
+                        if img1 != ori:
+                            culprit = dict(line=i + 1, orig=lines[i], blanks_after_mnemonic=len(nl) - len(lines[i]) + 1, files={name + ".asm": "".join(t)}, diag=diag1[:200])
+                            break
+                    spec_fail.append(dict(tag="%s/long-gap" % name, test=name, flags=flags, whole="long-lines",
+                                          why="blanks between mnemonic and parameters up to an argument field of 1023..1281 characters change the image%s: %s"
+                                              % ((" (line %d alone: %r + %d blanks)" % (culprit["line"], culprit["orig"][:60], culprit["blanks_after_mnemonic"])) if culprit else "", diag[:300]),
+                                          files=culprit["files"] if culprit else {name + ".asm": "".join(out_long)}, incdir=os.path.dirname(asm),
+                                          changed_lines=[dict(line=i + 1, orig=lines[i], argument_field=len(nl) - op_upper(nl)[1]["op"][1] - 1) for i, nl in longs]))
             shutil.rmtree(d, ignore_errors=True)
 
         # ---------------- prefix-style statements / statements that prepare state for the next one: vlib/props/c16_prefix.py,
@@ -1108,13 +1187,28 @@ def run(args):
         dist["prefix_part"] = pp["dist"]
         log("C16: prefix-style statements done %.1fs" % (time.time() - t0))
 
+        # ---------------- long lines (length sweeps across the component buffer sizes of SplitLine) and wrapped texts whose definitions carry
+        #                  more than a value: vlib/props/c16_long.py, Model/Split.lean splitBuf/splitBufRun, Props/C16_Long.lean
+        lp = c16_long.run_part(_sys.modules[__name__], args, bdir, wd, drv_ok)
+        spec_fail += lp["spec_fail"]
+        corr_fail += lp["corr_fail"]
+        proof_problems += lp["problems"]
+        evaluations += lp["evaluations"]
+        distinct |= lp["distinct"]
+        samples += lp["samples"][:4]
+        dist["long_part"] = lp["dist"]
+        log("C16: long lines / definition-carrying wrap texts done %.1fs" % (time.time() - t0))
+
     nk = sum(1 for f in spec_fail if f.get("sig") == "to-macro-second-cpu-or-flag-statement-double-defined")
     if nk:
         log("C16: %d to-macro runs hit the known CPU/flag-symbol finding: %s" % (nk, ", ".join("%s [%s]" % (f.get("tag"), f.get("why", "")[-160:].replace("\n", " | ")) for f in spec_fail if f.get("sig") == "to-macro-second-cpu-or-flag-statement-double-defined")[:900]))
     dist["to_macro_known_finding_hits"] = nk
+    nkt = sum(1 for f in spec_fail if f.get("sig") == c16_long.KNOWN_TAB_SIG)
+    if nkt:
+        log("C16: %d runs hit the known finding %s: %s" % (nkt, c16_long.KNOWN_TAB_SIG, ", ".join(f.get("tag") for f in spec_fail if f.get("sig") == c16_long.KNOWN_TAB_SIG)[:600]))
     nlog = 0
     for f in spec_fail:
-        if f.get("sig") in ("to-macro-second-cpu-or-flag-statement-double-defined", "upd772x-op-operandless-inner-mnemonic-case-sensitive"):
+        if f.get("sig") in ("to-macro-second-cpu-or-flag-statement-double-defined", "upd772x-op-operandless-inner-mnemonic-case-sensitive", c16_long.KNOWN_TAB_SIG):
             continue
         nlog = nlog + 1
         if nlog <= 16:
@@ -1130,12 +1224,15 @@ def run(args):
         "oracle of the corpus sweep: recorded tests/<t>/<t>.ori images (trusted recorded output)",
         "harness line analyser (vlib/props/c16.py analyze/classify/prefix_sites) decides where rewrites are placed; every rewritten line is re-judged by the Lean model "
         "(c16pair; prefix-style statements: c16px = SplitLine + the code generator's own split; #define lines: c16def = Preprocess)",
-        "generated prefix-statement texts: oracle = image of the plain spelling of the same text (current binary); Z380 DDIR/JP programs: oracle = Spec/PrefixCarry.code"])
+        "generated prefix-statement texts: oracle = image of the plain spelling of the same text (current binary); Z380 DDIR/JP programs: oracle = Spec/PrefixCarry.code",
+        "long-line sweeps (c16_long.py): oracle = the bytes written in each data line (harness evaluates decimal operands, '(d)' and 'd+d'); the model's arguments are evaluated the same way; "
+        "definition-carrying wrap texts: oracle = image of the plain spelling (8086 texts also the harness's own encoding of INC/DEC/NEG/NOT/MOV mem,imm)"])
     dist["rewrites_by_kind"] = kinds_total
     res.coverage.update(
         evaluations=evaluations, distinct_nontrivial=len(distinct),
         rule="one evaluation = one rewritten golden source assembled + p2bin + compared with .ori; non-trivial = at least one line rewritten or a whole-file rewrite; distinct by rewritten text; "
-             "plus (c16_prefix.py) one evaluation = one generated prefix-statement text in one spelling / one Z380 DDIR-JP program with empty lines, image compared with the plain spelling's / the SPEC's bytes",
+             "plus (c16_prefix.py) one evaluation = one generated prefix-statement text in one spelling / one Z380 DDIR-JP program with empty lines, image compared with the plain spelling's / the SPEC's bytes; "
+             "plus (c16_long.py) one evaluation = one length-sweep source (all spellings of one long data line) or one definition-carrying text in one whole-text spelling",
         samples=samples, distribution=dist, exclusions=EXCLUSIONS)
     res.assumptions = ["the recorded .ori images are correct", "macro-argument transport under -U is verbatim (used to observe the real split fields)"]
     return common.conclude(res, proof_problems, spec_fail, corr_fail, evaluations)
